@@ -486,6 +486,8 @@ class Translator:
         if n.attr == "dtype":
             return DType(obj)
         if n.attr in ("shape",):
+            if isinstance(obj, np.ndarray):
+                return tuple(sp.Integer(k) for k in obj.shape)  # the component model knows its shape
             if self.hooks.get("allow_shape"):
                 return Opaque("shape")
             raise Unmodelled("shape of symbolic tensor")
@@ -854,6 +856,8 @@ class Translator:
 
         def ax(default=None, pos=1):
             v = axis if axis is not None else (args[pos] if len(args) > pos else default)
+            if isinstance(v, (list, tuple)):
+                return tuple(_pyint(x) for x in v)  # reduction over several axes
             return None if v is None else _pyint(v)
 
         if last in ("reduce_sum", "sum") and isinstance(a0, (list, tuple)) and a0 and all(is_sym(x) or isinstance(x, (int, float)) for x in a0) and ax(None) in (0, None):
